@@ -1,0 +1,23 @@
+//go:build verif
+
+// Contracts for package sign, checked by /verif/gvc (contract-based deductive
+// verification).  This file is comment-only: with the build tag off it does
+// not exist for the compiler, with it on it adds nothing but a package clause.
+package sign
+
+//@ import "io"
+//
+//@ func PGPArmoredDetachSignWithKeyID(message io.Reader, keyFile, passphrase string, hexKeyID *string) (sig []byte, err error)
+//@   ensures [C06 C10] loud: implies(err == nil, flag("failed") == old(flag("failed")))
+//@   ensures [C07] no-clock-no-env: flag("clockRead") == old(flag("clockRead")) && flag("envRead") == old(flag("envRead"))
+//@   modifies [C11 C12] flag("failed"), flag("signed")
+//
+//@ func PGPClearSignWithKeyID(message io.Reader, keyFile, passphrase string, hexKeyID *string) (sig []byte, err error)
+//@   ensures [C06 C10] loud: implies(err == nil, flag("failed") == old(flag("failed")))
+//@   ensures [C07] no-clock-no-env: flag("clockRead") == old(flag("clockRead")) && flag("envRead") == old(flag("envRead"))
+//@   modifies [C11 C12] flag("failed"), flag("signed")
+//
+//@ func RSASignSHA1Digest(sha1Digest []byte, keyFile, passphrase string) (sig []byte, err error)
+//@   ensures [C06 C10] loud: implies(err == nil, flag("failed") == old(flag("failed")))
+//@   ensures [C07] no-clock-no-env: flag("clockRead") == old(flag("clockRead")) && flag("envRead") == old(flag("envRead"))
+//@   modifies [C11 C12] flag("failed"), flag("signed")
